@@ -265,6 +265,10 @@ impl FragReader {
     pub fn from_vec(data: Vec<u8>, script: ReadScript) -> Self {
         Self::new(Arc::new(data), script)
     }
+    /// a reader that was partly consumed before it is handed over
+    pub fn set_pos(&mut self, pos: usize) {
+        self.pos = pos.min(self.data.len());
+    }
 }
 
 impl AsyncRead for FragReader {
